@@ -33,7 +33,7 @@ Step(s) == hist' = Append(hist, s)
 NoneArg == -1
 C(name, recv, byval, arg, elems, n, okind) ==
     [op |-> name, recv |-> recv, byval |-> byval, arg |-> arg, elems |-> elems, n |-> n,
-     okind |-> okind, truthful |-> TRUE]
+     okind |-> okind, truthful |-> TRUE, spare |-> FALSE]
 
 (* ---- the caller creates and lets go of values ---------------------------- *)
 MkKinds == {"arr", "native", "tuple", "vec", "bslice", "box"}
